@@ -371,6 +371,53 @@ class Exec:
                         q = "imprecise"
                 self.walk(s, e2, q, onpath | {bid})
             return
+        if t and t.get("kind") == "SwitchStmt" and isinstance(t.get("cond"), dict):
+            v = self.eval(t["cond"], env)
+            cv = _strip(t["cond"])
+            while isinstance(cv, dict) and cv.get("k") == "cast":
+                cv = _strip(cv["e"])
+            var = cv["id"] if isinstance(cv, dict) and cv.get("k") == "var" else None
+            cases, default = [], None
+            for s in succs:
+                if not isinstance(s, int):
+                    continue
+                blk = self.blocks[s]
+                if isinstance(blk.get("case"), dict) and "case_hi" not in blk:
+                    kv = self.eval(blk["case"], env)
+                    cases.append((s, kv))
+                else:
+                    default = s
+            if isinstance(v, V) and all(isinstance(kv, V) and kv.lo == kv.hi for _s, kv in cases):
+                res = [(s_, kv, self.compare(v, "==", kv)) for s_, kv in cases]
+                hit = [r for r in res if r[2][0] is True]
+                if hit:
+                    self.walk(hit[0][0], env, quality, onpath | {bid})
+                    return
+                q_def = quality
+                e_def = dict(env)
+                for s_, kv, c in res:
+                    if c[0] is False:
+                        continue
+                    e2 = dict(env)
+                    q = quality if c[1] == "split" else "imprecise"
+                    if c[1] != "split":
+                        q_def = "imprecise"
+                    if var is not None and isinstance(env.get(var), V):
+                        a = env[var]
+                        e2[var] = V(kv.lo, kv.lo, a.sym, a.exact)
+                        d = e_def.get(var)
+                        if isinstance(d, V):
+                            if d.lo == kv.lo and d.lo < d.hi:
+                                e_def[var] = V(d.lo + 1, d.hi, d.sym, d.exact)
+                            elif d.hi == kv.lo and d.lo < d.hi:
+                                e_def[var] = V(d.lo, d.hi - 1, d.sym, d.exact)
+                    self.walk(s_, e2, q, onpath | {bid})
+                if default is not None:
+                    # the default arm is taken by the values no case names; whether any such value exists is known only for an exact
+                    # quantity whose interval is wider than the set of cases
+                    wide = isinstance(v, V) and v.exact and (v.hi - v.lo + 1) > len([r for r in res if r[2][0] is not False])
+                    self.walk(default, e_def, q_def if wide else "imprecise", onpath | {bid})
+                return
         for s in succs:
             if isinstance(s, int) and s != self.fn["exit"]:
                 self.walk(s, env, quality if len(succs) == 1 else "imprecise", onpath | {bid})
@@ -533,13 +580,16 @@ def run(prop="C11", tier="quick"):
                              ("fix_order_bad_cmp_ui", "cmp", dict(signed_v=False, absu=False)),
                              ("fix_order_bad_cmp_si", "cmp", dict(signed_v=True, absu=False)),
                              ("fix_order_good_fits", "fits", dict(lo_t=-(1 << 31), hi_t=(1 << 31) - 1)),
-                             ("fix_order_bad_fits", "fits", dict(lo_t=-(1 << 31), hi_t=(1 << 31) - 1))):
+                             ("fix_order_bad_fits", "fits", dict(lo_t=-(1 << 31), hi_t=(1 << 31) - 1)),
+                             ("fix_order_good_switch", "fits", dict(lo_t=-(1 << 31), hi_t=(1 << 31) - 1)),
+                             ("fix_order_bad_switch", "fits", dict(lo_t=-(1 << 31), hi_t=(1 << 31) - 1))):
         if ("FIXTURE", name) not in byname:
             raise AnalysisBroken("R-ORDER fixture %s missing" % name)
         n, p, u, bad = judge(byname[("FIXTURE", name)][1], kind, args)
         fx[name] = "refuted" if bad else ("proved" if p == n else "undecided")
     want = {"fix_order_good_cmp_ui": "proved", "fix_order_bad_cmp_ui": "refuted", "fix_order_bad_cmp_si": "refuted",
-            "fix_order_good_fits": "proved", "fix_order_bad_fits": "refuted"}
+            "fix_order_good_fits": "proved", "fix_order_bad_fits": "refuted", "fix_order_good_switch": "proved",
+            "fix_order_bad_switch": "refuted"}
     if fx != want:
         raise AnalysisBroken("R-ORDER fixtures: got %r, want %r" % (fx, want))
     for rel, name, kind, args in TARGETS:
@@ -566,6 +616,6 @@ def run(prop="C11", tier="quick"):
     res["stats"] = dict(st)
     res["obligations"] = st["cells"]
     res["undecided"] = st.get("undecided", 0)
-    res["notes"].append("fixtures: 2 correct predicates proved, 3 broken ones refuted")
+    res["notes"].append("fixtures: 3 correct predicates proved (one written as a switch), 4 broken ones refuted")
     res["exhaustive"] = True
     return res
